@@ -227,6 +227,10 @@ func c10Run(nk, ns, na, npatches int) {
 	for k, v := range st.other {
 		verifrt.Assert(verifrt.JSONEqual(res[k], v), "other members follow ietf-json-patch / are dropped by replace")
 	}
+	for k := range res {
+		_, expected := st.other[k]
+		verifrt.Assert(expected || k == "publicKey" || k == "service" || k == "alsoKnownAs", "the result has no member the fold does not have (replace discards the whole document)")
+	}
 	verifrt.Assert(verifrt.And(idsUnique(listOf(res["publicKey"])), idsUnique(listOf(res["service"]))), "unique ids in => unique ids out")
 }
 
